@@ -176,6 +176,7 @@ func alDecodeEvent(pk *alPkg, up bool, items []M, b []byte) M {
 	ev := M{"ev": "aldec", "pkg": pk.name, "dir": dir, "cmds": items, "bytes": bs(b)}
 	in := append([]byte{}, b...)
 	var back []alCmd
+	inflight("applayer/"+pk.name+"/"+dir+" Commands.UnmarshalBinary", b)
 	res, _ := observeFast(func() error {
 		var err error
 		back, err = pk.unmarshal(up, in)
